@@ -47,6 +47,12 @@ func typeMax(t types.Type) uint64 {
 }
 
 func union(a, b ival) ival {
+	if a.lo > a.hi { // empty
+		return b
+	}
+	if b.lo > b.hi {
+		return a
+	}
 	r := ival{lo: a.lo, hi: a.hi}
 	if b.lo < r.lo {
 		r.lo = b.lo
